@@ -7,10 +7,11 @@
     C10_model_realisation    the same for the matrices the executable model
         CC/Model/StateSpace.lean returns (bridge CC/Proofs/StateBridge.lean);
     C10_dims, C10_sources_length, C10_container, C10_unknown_node_zero_row;
-    C10_columns_follow_sources_partial + the two counterexamples: the code's column selection
-        is the intended one iff names do not interleave and inductors are listed alphabetically.
+    C10_columns_follow_sources   FULL strength since fix 3361ab5 (block-position column
+        selection): column k of QS belongs to sources[k], column k of QL to the k-th key of
+        l_values — every network, every naming, every listing order.  The two former
+        counterexample inputs ('A','M','Z'; {'L2','L1'}) are kept as regression examples.
   Open (stated, not proved): C10_augmented_is_circuit_statement, C10_transfer_statement.
-  Refuted as stated: C10_columns_follow_sources_statement (see the counterexamples).
 -/
 import CC.Proofs.StateModel
 import CC.Spec.StateSpace
@@ -110,8 +111,8 @@ theorem C10_dims {N : Net L K} {cvals lvals : ValDict K} {Ainv S : List (List K)
   model_dims hm
 
 /-- the number of input columns is the number of published sources -/
-theorem C10_sources_length (N : Net L K) (lvals : ValDict K) (hcs : ∀ id ∈ N.csIds, lvals.has id = false) :
-    ssNInputs N lvals = (ssSources N lvals).length := sources_length N lvals hcs
+theorem C10_sources_length (N : Net L K) (lvals : ValDict K) :
+    ssNInputs N lvals = (ssSources N lvals).length := sources_length N lvals
 
 /-- the container's five checks accept exactly the consistent shapes -/
 theorem C10_container (a b c d : Nat × Nat) :
@@ -124,14 +125,13 @@ theorem C10_unknown_node_zero_row (m : NSSM L K) (node : L) (h : idxOf? node m.n
     m.cRowPotential node = Mx.zeroVec m.nStates ∧ m.dRowPotential node = Mx.zeroVec m.nInputs :=
   ⟨rowForPotential_unknown m node _ _ h, rowForPotential_unknown m node _ _ h⟩
 
-/-- the code's column selection is the intended one when names do not interleave and the
-inductors are listed alphabetically -/
-theorem C10_columns_follow_sources_partial (N : Net L K) (lvals : ValDict K)
-    (hblk : N.srcIds = N.csIds ++ N.vsIds)
-    (hcs : ∀ id ∈ N.csIds, lvals.has id = false)
-    (hkeys : lvals.keys = N.vsIds.filter fun v => lvals.has v) :
+/-- **input columns follow the published source order, inductor columns the dictionary** — full
+strength: every network with distinct ids, every dictionary whose keys are ideal voltage sources
+(short circuits) of the network; no hypothesis on names or on the listing order -/
+theorem C10_columns_follow_sources (N : Net L K) (lvals : ValDict K) (hids : N.ids.Nodup)
+    (hkeys : ∀ id ∈ lvals.keys, id ∈ N.vsIds) :
     ssColsS N lvals = specColsS N lvals ∧ ssColsL N lvals = specColsL N lvals :=
-  cols_follow_sources_partial N lvals hblk hcs hkeys
+  cols_follow_sources N lvals hids hkeys
 
 end model
 
@@ -162,9 +162,9 @@ theorem netRC_Delta : ssDelta netRC [("C", 1)] = .ok [[0, 1, 0]] := by
   simp [bind, Except.bind, pure, Except.pure]
 
 theorem netRC_colsL : ssColsL netRC [] = [] := by
-  simp [ssColsL, netRC_srcIds, ValDict.has, ValDict.keys]
+  simp [ssColsL, ValDict.keys]
 theorem netRC_colsS : ssColsS netRC [] = [0] := by
-  simp [ssColsS, netRC_srcIds, ValDict.has, ValDict.keys, idxOf?]
+  simp [ssColsS, netRC_csIds, netRC_vsIds, Net.nC, ValDict.has, ValDict.keys, idxOf?]
 theorem netRC_nY : netRC.nY = 3 := by simp [Net.nY, Net.nN, Net.nV, netRC_nodes, netRC_vsIds]
 theorem netRC_ns : ssNStates netRC [("C", 1)] [] = 1 := by simp [ssNStates, netRC_colsL]
 
@@ -193,14 +193,7 @@ theorem netRC_cert : ModelCert id netRC [("C", 1)] [] rcAinv rcS [[0, 1, 0]] whe
 example : ∃ m, stateSpaceMatrices netRC [("C", 1)] [] rcAinv rcS = .ok m := by
   simp [stateSpaceMatrices, netRC_Delta, netRC_colsL, bind, Except.bind, pure, Except.pure]
 
-/-! ### the full column statement is false: two counterexamples -/
-
-/-- FULL statement (false as the code is): column `k` of `QS` belongs to `sources[k]`, column
-`k` of `QL` to the `k`-th key of `l_values` -/
-def C10_columns_follow_sources_statement : Prop :=
-  ∀ (N : Net String ℚ) (lvals : ValDict ℚ), N.check = .ok () →
-    (∀ id ∈ N.csIds, lvals.has id = false) → (∀ id ∈ lvals.keys, id ∈ N.vsIds) →
-    ssColsS N lvals = specColsS N lvals ∧ ssColsL N lvals = specColsL N lvals
+/-! ### regression examples: the two inputs that refuted the column statement before fix 3361ab5 -/
 
 /-- voltage source 'A', inductor 'M', current source 'Z' -/
 def netAMZ : Net String ℚ := { zero := "0", branches := [
@@ -218,65 +211,30 @@ def netL12 : Net String ℚ := { zero := "0", branches := [
   { n1 := "3", n2 := "0", id := "R2", e := .norton 4 0 },
   { n1 := "3", n2 := "0", id := "L2", e := .norton 0 0 }] }
 
-
-theorem netAMZ_srcIds : netAMZ.srcIds = ["A", "M", "Z"] := by
-  simp [netAMZ, Net.srcIds, Net.cs, Net.vs, Elem.isCS, Elem.isIdealVS, Elem.Ival, sortL, List.mergeSort,
-    LabelOrd.le, List.MergeSort.Internal.splitInTwo]
 theorem netAMZ_csIds : netAMZ.csIds = ["Z"] := by
   simp [netAMZ, Net.csIds, Net.cs, Elem.isCS, Elem.Ival, sortL]
 theorem netAMZ_vsIds : netAMZ.vsIds = ["A", "M"] := by
   simp [netAMZ, Net.vsIds, Net.vs, Elem.isIdealVS, sortL, List.mergeSort, LabelOrd.le,
     List.MergeSort.Internal.splitInTwo]
-theorem netAMZ_check : netAMZ.check = .ok () := by
-  simp [Net.check, netAMZ, Net.nodeLabels, Net.ids, dedupL, sortL, List.mergeSort, LabelOrd.le,
-    List.MergeSort.Internal.splitInTwo]
 
-/-- what the code selects for the inductor 'M' is column 1 of `Q` — the column of the voltage
-source 'A' (block order of the columns: Z | A, M); the inductor's own column is 2 -/
-theorem netAMZ_cols : ssColsL netAMZ [("M", 1/2)] = [1] ∧ specColsL netAMZ [("M", 1/2)] = [2]
-    ∧ ssColsS netAMZ [("M", 1/2)] = [0, 2] ∧ specColsS netAMZ [("M", 1/2)] = [0, 1] := by
-  refine ⟨?_, ?_, ?_, ?_⟩
-  · simp [ssColsL, netAMZ_srcIds, ValDict.has, ValDict.keys, idxOf?]
-  · simp [specColsL, blockPos, netAMZ_csIds, netAMZ_vsIds, ValDict.keys, idxOf?]
-  · simp [ssColsS, netAMZ_srcIds, ValDict.has, ValDict.keys, idxOf?]
-  · simp [specColsS, ssSources, blockPos, netAMZ_csIds, netAMZ_vsIds, ValDict.has, ValDict.keys, idxOf?]
+/-- interleaved names: columns of `Q` are Z | A, M; the inductor 'M' gets its own column 2, the
+inputs are `sources = [Z, A]` at columns 0, 1 (before the fix: `QL = [1]`, `QS = [0, 2]`) -/
+example : ssColsL netAMZ [("M", 1/2)] = [2] ∧ ssColsS netAMZ [("M", 1/2)] = [0, 1]
+    ∧ ssSources netAMZ [("M", 1/2)] = ["Z", "A"] := by
+  refine ⟨?_, ?_, ?_⟩
+  · simp [ssColsL, netAMZ_csIds, netAMZ_vsIds, Net.nC, ValDict.keys, idxOf?]
+  · simp [ssColsS, netAMZ_csIds, netAMZ_vsIds, Net.nC, ValDict.has, ValDict.keys, idxOf?]
+  · simp [ssSources, netAMZ_csIds, netAMZ_vsIds, ValDict.has, ValDict.keys]
 
-/-- **counterexample 1 (interleaved names)**: voltage source 'A', inductor 'M', current source
-'Z' — the inductor is given the column of the voltage source and the current source the column of
-the inductor -/
-theorem C10_interleaved_counterexample : ¬ C10_columns_follow_sources_statement := by
-  intro h
-  have h1 := (h netAMZ [("M", 1/2)] netAMZ_check
-    (by rw [netAMZ_csIds]; simp [ValDict.has, ValDict.keys])
-    (by rw [netAMZ_vsIds]; simp [ValDict.keys])).2
-  rw [netAMZ_cols.1, netAMZ_cols.2.1] at h1
-  simp at h1
-
-theorem netL12_srcIds : netL12.srcIds = ["L1", "L2", "Vq"] := by
-  simp [netL12, Net.srcIds, Net.cs, Net.vs, Elem.isCS, Elem.isIdealVS, Elem.Ival, sortL, List.mergeSort,
-    LabelOrd.le, List.MergeSort.Internal.splitInTwo]
 theorem netL12_csIds : netL12.csIds = [] := by
   simp [netL12, Net.csIds, Net.cs, Elem.isCS, Elem.Ival, sortL]
 theorem netL12_vsIds : netL12.vsIds = ["L1", "L2", "Vq"] := by
   simp [netL12, Net.vsIds, Net.vs, Elem.isIdealVS, sortL, List.mergeSort, LabelOrd.le,
     List.MergeSort.Internal.splitInTwo]
-theorem netL12_check : netL12.check = .ok () := by
-  simp [Net.check, netL12, Net.nodeLabels, Net.ids, dedupL, sortL, List.mergeSort, LabelOrd.le,
-    List.MergeSort.Internal.splitInTwo]
 
-/-- **counterexample 2 (inductors listed non-alphabetically)**: `l_values = {'L2': 1/4, 'L1': 1/8}`
-— the columns of `QL` come in the order L1, L2 while `Λ` carries the values in the order L2, L1 -/
-theorem C10_inductor_order_counterexample : ¬ C10_columns_follow_sources_statement := by
-  intro h
-  have h1 := (h netL12 [("L2", 1/4), ("L1", 1/8)] netL12_check
-    (by rw [netL12_csIds]; simp)
-    (by rw [netL12_vsIds]; simp [ValDict.keys])).2
-  have e1 : ssColsL netL12 [("L2", 1/4), ("L1", 1/8)] = [0, 1] := by
-    simp [ssColsL, netL12_srcIds, ValDict.has, ValDict.keys, idxOf?]
-  have e2 : specColsL netL12 [("L2", 1/4), ("L1", 1/8)] = [1, 0] := by
-    simp [specColsL, blockPos, netL12_csIds, netL12_vsIds, ValDict.keys, idxOf?]
-  rw [e1, e2] at h1
-  simp at h1
+/-- inductors listed as L2, L1: the columns of `QL` come in that order (before the fix: `[0, 1]`) -/
+example : ssColsL netL12 [("L2", 1/4), ("L1", 1/8)] = [1, 0] := by
+  simp [ssColsL, netL12_csIds, netL12_vsIds, Net.nC, ValDict.keys, idxOf?]
 
 /-! ### open statements -/
 
@@ -292,15 +250,13 @@ def ssPencil (N : Net String K) (cvals lvals : ValDict K) (Delta : List (List K)
   Mx.ofFn ny ny fun i j => Mx.get (ssAtilde id N) i j - s * Mx.get E i j
 
 /-- the network is the `w = 0` image of an RLC + ideal-source circuit with the given dictionaries:
-capacitors are open circuits, inductors short circuits, no self-loops, and the column selection is
-the intended one (`C10_columns_follow_sources_partial` gives a sufficient condition) -/
+capacitors are open circuits, inductors short circuits, no self-loops, no lossy source -/
 def RLCSetting (N : Net String K) (cvals lvals : ValDict K) : Prop :=
   N.check = .ok () ∧ (∀ b ∈ N.branches, b.n1 ≠ b.n2)
   ∧ (∀ id ∈ cvals.keys, ∃ b, N.get? id = some b ∧ b.e = .thevenin 0 0)
   ∧ (∀ id ∈ lvals.keys, ∃ b, N.get? id = some b ∧ b.e = .norton 0 0)
   ∧ cvals.keys.Nodup ∧ lvals.keys.Nodup
   ∧ (∀ b ∈ N.branches, b.e.isLossy = false)
-  ∧ ssColsS N lvals = specColsS N lvals ∧ ssColsL N lvals = specColsL N lvals
 
 end open_statements
 
